@@ -42,7 +42,7 @@ CLAIMED = {
          'Properly bracketed call histories with nested inits, re-initialisation after free and documents around and beyond the slab size are executed; after every command conversion results must equal pristine-pool references, held trees must stay addressable and unchanged until the outermost drain and be poisoned after it, with the allocator confirming the released amount. Held on everything generated.',
          'Trusted: rapidcheck, ASan poisoning semantics, __sanitizer_get_current_allocated_bytes.',
          'DESIGN.md section 5, C18'),
- 'C02': ('E4-enumerators', 'bounded-exhaustive enumeration of line-kind sequences (35 kinds, length <= L), every ordered pair repeated into a long document, plus random longer sequences, and coverage-guided fuzzing, both under an escape-detecting oracle (intercepted exit, fd-2 diagnostics, empty tree)',
+ 'C02': ('E4-enumerators', 'bounded-exhaustive enumeration of line-kind sequences (39 kinds, length <= L), every ordered pair repeated into a long document, plus random longer sequences, and coverage-guided fuzzing, both under an escape-detecting oracle (intercepted exit, fd-2 diagnostics, empty tree)',
          'Every sequence of up to L line kinds (quick L=3: 33,824 documents; thorough L=4) and random sequences of length 5..12 go through all 7 writers in MMD and compatibility mode; a libFuzzer target covers arbitrary documents. A conversion that calls exit(), prints an unknown-token / parse-failed diagnostic, yields an empty tree or loses a leading plain line is a violation. The enumerated core is exhaustive for its bound; the rest is exploration.',
          'Trusted: --wrap=exit interception, fd-2 capture, one representative spelling per line kind.',
          'DESIGN.md section 5, C02'),
